@@ -179,6 +179,50 @@ func closeCases(cap int, thorough bool) []Case {
 	return out
 }
 
+// loopCases: the queue's loop is held (a) at queue.loop.fired — its timer fired for the head item,
+// execute has not yet taken the queue lock — and (b) at queue.loop.beforeTimer — between clock.Now()
+// and clock.NewTimer(); meanwhile Batch on the HEAD key (the new value must come one interval after
+// ITS call, not at the old deadline), Batch on another key, Subscribe, cancel, a clock advance, Close.
+func loopCases(thorough bool) []Case {
+	var out []Case
+	base := []Op{sub("prompt"), sub("manual"), sub("prompt"), batch(0), adv(10), read(1, 1)}
+	xs := map[string][]Op{
+		"batch-head-key": {batch(1)}, "batch-head-key-twice": {batch(1), batch(1)}, "batch-other-key": {batch(2)},
+		"batch-both": {batch(2), batch(1)}, "sub": {sub("prompt")}, "cancel0": {cancel(0)}, "cancel1": {cancel(1)},
+		"close": {closeN(1)}, "adv": {adv(4)}, "batch-head-key-adv": {batch(1), adv(10)},
+	}
+	names := []string{"batch-head-key", "batch-head-key-twice", "batch-other-key", "batch-both", "sub", "cancel0", "cancel1",
+		"close", "adv", "batch-head-key-adv"}
+	tail := []Op{adv(10), read(1, 3), adv(10), read(1, 3)}
+	for _, n := range names {
+		// (a) the head item (key 1) is due, the loop woke up for it and is held before execute
+		ops := append([]Op{}, base...)
+		ops = append(ops, batch(1), op("parkfired"), adv(10))
+		ops = append(ops, xs[n]...)
+		ops = append(ops, op("release"))
+		ops = append(ops, tail...)
+		out = append(out, cs("forced-loop", "fired-"+n, ops...))
+		// the same with a second key pending behind the head
+		if thorough {
+			ops = append([]Op{}, base...)
+			ops = append(ops, batch(1), adv(3), batch(2), op("parkfired"), adv(7))
+			ops = append(ops, xs[n]...)
+			ops = append(ops, op("release"))
+			ops = append(ops, tail...)
+			out = append(out, cs("forced-loop", "fired-two-pending-"+n, ops...))
+		}
+		// (b) the loop has read the clock for the head item and is held before it creates its timer
+		ops = append([]Op{}, base...)
+		ops = append(ops, op("parktimer"), batch(1))
+		ops = append(ops, xs[n]...)
+		ops = append(ops, op("release"))
+		ops = append(ops, tail...)
+		ops = append(ops, adv(10), read(1, 3))
+		out = append(out, cs("forced-loop", "timer-"+n, ops...))
+	}
+	return out
+}
+
 // randomCase: a short history over keys {0,1,2} with 1-3 subscribers.
 func randomCase(r *lib.Rand) Case {
 	n := r.Range(6, 18)
@@ -229,11 +273,15 @@ func randomCase(r *lib.Rand) Case {
 			}
 		case x < 95:
 			if !parked {
-				switch r.Intn(5) {
+				switch r.Intn(7) {
 				case 0, 1:
 					ops = append(ops, parksend(r.Intn(nsubs)))
 				case 2, 3:
 					ops = append(ops, parkexit(r.Intn(nsubs)))
+				case 4:
+					ops = append(ops, op("parkfired"))
+				case 5:
+					ops = append(ops, op("parktimer"))
 				default:
 					ops = append(ops, op("parkcas"))
 				}
